@@ -28,7 +28,7 @@ from . import _util as U
 PID = "C18"
 MOD = "bbverif.checks.c18"
 
-BOUNDS = {"quick": {"M": 7, "N": 13, "CM": 6}, "thorough": {"M": 10, "N": 16, "CM": 8}}
+BOUNDS = {"quick": {"M": 7, "N": 13, "CM": 6}, "thorough": {"M": 11, "N": 18, "CM": 8}}
 SP, TABC, LF, CR, HASH, QUOTE = 32, 9, 10, 13, 35, 34
 
 
